@@ -1,4 +1,5 @@
 import Crusta.Proofs.Oracle
+import Crusta.Proofs.StaticAll
 
 /-! # C07 — multi-argument queries are disjunctions (property theorems) -/
 
@@ -49,5 +50,32 @@ theorem variants_agree (af : AF) (hwf : af.WF) (σ : Sem) (t : Task) (as : List 
   · simp [Conforms] at h1
   · simp only [Conforms] at h1 h2; exact status_eq_of_iff h1.1 h2.1
   · simp only [Conforms] at h1 h2; exact status_eq_of_iff h1.1 h2.1
+
+
+/-- **C07 on the solver programs**: a query over a list of arguments is answered as the
+disjunction of its members (`HitsL args S` = some member of the list is in `S`), for the variants
+with and without certificate alike (C02 / C03 theorems, restated for lists) -/
+theorem list_queries_are_disjunctions (σ : Sem) (g : G) (args : List Nat) (c1 c2 : Bool) (a1 a2 : AccAns) :
+    (DCOK σ g args c1 a1 → (a1.status = true ↔ ∃ S, σ.GExt g S ∧ ∃ x ∈ args, S x = true)) ∧
+    (DSOK σ g args c1 a1 → (a1.status = true ↔ ∀ S, σ.GExt g S → ∃ x ∈ args, S x = true)) ∧
+    (DCOK σ g args c1 a1 → DCOK σ g args c2 a2 → a1.status = a2.status) ∧
+    (DSOK σ g args c1 a1 → DSOK σ g args c2 a2 → a1.status = a2.status) := by
+  refine ⟨fun h => ⟨fun hst => (h.1 hst).1, fun hex => ?_⟩, fun h => ⟨fun hst => (h.1 hst).1, fun hall => ?_⟩,
+    (status_determined σ g args c1 c2 a1 a2).1, (status_determined σ g args c1 c2 a1 a2).2⟩
+  · cases hst : a1.status with
+    | true => rfl
+    | false => exact absurd hex (h.2 hst).1
+  · cases hst : a1.status with
+    | true => rfl
+    | false =>
+      obtain ⟨S, hS, hn⟩ := (h.2 hst).1
+      exact absurd (hall S hS) hn
+
+/-- every static solver's acceptance answers satisfy `DCOK` / `DSOK` (hence the above) -/
+theorem solver_answers_satisfy_spec (sk : SolverKind) (cfg : Cfg) (hcfg : CfgOK sk cfg) (v : FwView) (g : G) (hv : v.Ok g)
+    (e : Entry) (hargs : ∀ a, a ∈ e.argsList → g.live a = true) (p : Prog Ans)
+    (hp : entryProg sk cfg v e = some p) (w : World) (hb : w.Bounded) (rs : List Reply)
+    (hs : RunSound p rs w) (ans : Ans) (w' : World) (hrun : interp p rs w = (.done ans, w')) :
+    EntryOK sk.sem g e ans := static_answers_conform sk cfg hcfg v g hv e hargs p hp w hb rs hs ans w' hrun
 
 end Crusta.C07
